@@ -550,6 +550,9 @@ func init() {
 
 	reg("strings.ToUpper", func(e *Exec, fn *ssa.Function, a []Value) Value {
 		s := str(a[0])
+		if cs, ok := concreteString(s); ok {
+			return e.strConst(strings.ToUpper(cs))
+		}
 		e.requireASCII(s, "strings.ToUpper")
 		out := make([]*sym.Term, len(s.B))
 		for i, c := range s.B {
@@ -559,6 +562,9 @@ func init() {
 	})
 	reg("strings.ToLower", func(e *Exec, fn *ssa.Function, a []Value) Value {
 		s := str(a[0])
+		if cs, ok := concreteString(s); ok {
+			return e.strConst(strings.ToLower(cs))
+		}
 		e.requireASCII(s, "strings.ToLower")
 		out := make([]*sym.Term, len(s.B))
 		for i, c := range s.B {
@@ -867,6 +873,35 @@ func init() {
 		}
 		return nil
 	})
+	sortSlice := func(e *Exec, fn *ssa.Function, a []Value) Value {
+		ifc := a[0].(Iface)
+		s, ok := ifc.V.(Slice)
+		if !ok {
+			panic(unsupported("sort.Slice on non-slice"))
+		}
+		less := a[1].(*Closure)
+		lessAt := func(i, j int) bool {
+			r := e.callFunction(less.Fn, []Value{e.tb.Const(64, uint64(i)), e.tb.Const(64, uint64(j))}, less.Bind)
+			return e.branch(r.(*sym.Term))
+		}
+		swap := func(i, j int) {
+			for c := 0; c < s.Stride; c++ {
+				x := s.Obj.Cells[s.Off+i*s.Stride+c]
+				y := s.Obj.Cells[s.Off+j*s.Stride+c]
+				e.setCell(s.Obj, s.Off+i*s.Stride+c, y)
+				e.setCell(s.Obj, s.Off+j*s.Stride+c, x)
+			}
+		}
+		// insertion sort (stable); sort.Slice makes no stability promise, any order consistent with less is a valid outcome
+		for i := 1; i < s.Len; i++ {
+			for j := i; j > 0 && lessAt(j, j-1); j-- {
+				swap(j, j-1)
+			}
+		}
+		return nil
+	}
+	reg("sort.Slice", sortSlice)
+	reg("sort.SliceStable", sortSlice)
 	_ = strings.ToUpper
 }
 
